@@ -39,6 +39,8 @@ def local_results(shape, n):
         out = s.map(lambda x: x * 10 + 7 + 3 + 1)
     elif shape == "zip_starmap_kw":
         out = s.map(lambda x: x).zip(s.map(lambda x: x + 1)).starmap(lambda a, b: (a + b) * 5 + 7 + 2)
+    elif shape == "zip_same_name":
+        out = s.map(lambda x: x * 10).zip(s.map(lambda x: x * 7))
     elif shape == "zip":
         out = s.map(lambda x: x * 10).zip(s.map(lambda x: x + 1))
     elif shape == "sliding":
@@ -67,6 +69,8 @@ def build(shape, src):
         return d.map(F.gated_x10_kw, key=7, retries=3, z=1).gather()
     if shape == "zip_starmap_kw":
         return d.map(F.ident).zip(d.map(F.inc)).starmap(F.pair_kw, key=7, priority=2).gather()
+    if shape == "zip_same_name":
+        return d.map(F.scaled(10, gated=True)).zip(d.map(F.scaled(7))).gather()
     if shape == "zip":
         return d.map(F.gated_x10).zip(d.map(F.inc)).gather()
     if shape == "sliding":
@@ -313,7 +317,7 @@ async def amain(a):
     rng = random.Random(a.seed)
     client = await Client(processes=False, asynchronous=True, dashboard_address=None, n_workers=1, threads_per_worker=16)
     runs = []
-    shapes = ["map", "map_buffer", "map_map", "accumulate", "starmap", "zip", "map_kw", "zip_starmap_kw"]
+    shapes = ["map", "map_buffer", "map_map", "accumulate", "starmap", "zip", "map_kw", "zip_starmap_kw", "zip_same_name"]
     n = 3
     try:
         for shape in shapes:
